@@ -400,6 +400,9 @@ func checkC15(p *Prog, rp *Report) {
 			{"decompressor constructor error", with(func(sc *debScenario) { sc.ctorErr = "gzip" }), mustFail("a control member whose decompressor cannot be opened")},
 			{"close error", with(func(sc *debScenario) { sc.closeErr = true }), mustFail("a decompressor that fails on Close")},
 			{"no members at all", with(func(sc *debScenario) { sc.members = nil }), mustFail("an empty archive")},
+			{"uncompressed control and data members", with(func(sc *debScenario) { sc.members = []string{"debian-binary", "control.tar", "data.tar"} }), any},
+			{"every compression of the control member", with(func(sc *debScenario) { sc.members = []string{"debian-binary", "control.tar.xz", "data.tar.zst"} }), any},
+			{"bzip2 and lzma members", with(func(sc *debScenario) { sc.members = []string{"debian-binary", "control.tar.bz2", "data.tar.lzma"} }), any},
 			{"only debian-binary", with(func(sc *debScenario) { sc.members = []string{"debian-binary"} }), mustFail("a package with only debian-binary")},
 			{"empty debian-binary", with(func(sc *debScenario) { sc.binary = "" }), mustFail("an empty debian-binary")},
 			{"short member names", with(func(sc *debScenario) { sc.members = []string{"debian-binary", "control.", "data."} }), any},
